@@ -249,6 +249,18 @@ pub fn check_pore(case: &PoreCase, obs: &mut Obs) {
         Err(e) => return obs.discard(format!("reference solve:{}", e.chars().take(30).collect::<String>())),
     };
     let dens0 = s0.pore.profile.density.clone();
+    // A nearly empty pore (long chain between hard walls: N ~ 1e-15) is below the resolution of the harness's own
+    // solves: the neighbours start from the reference density, whose residual at the neighbouring bulk state
+    // (~ h x density) is already below the absolute polishing tolerance, so they are returned unchanged and every
+    // re-solved difference is exactly zero (false alarm of sweep seed 503). Such cases decide nothing.
+    {
+        let r = dens0.to_reduced();
+        let rms = (r.iter().map(|v| v * v).sum::<f64>() / r.len().max(1) as f64).sqrt();
+        if !(case.h * rms > 1e3 * polish_tol(&bulk)) {
+            obs.class("nearly empty pore (density change of the neighbours below the polishing tolerance): no verdict");
+            return obs.discard("nearly empty pore: below the resolution of the re-solved neighbours");
+        }
+    }
     // real adsorption: excess over the bulk density in the accessible volume
     let vol = {
         let mut one = Array2::zeros(s0.pore.profile.external_potential.raw_dim());
